@@ -103,17 +103,40 @@ where
         }
 
         // 3. move replace_with in
+        // ExactSizeIterator::len() can not be trusted (it is safe to implement it wrong):
+        // never write more elements than was reserved.
+        let replace_len = replace_end - self.start;
+        let mut written = 0;
         unsafe{
             let type_id = element_typeid(any_vec_ptr);
             let element_size = element_size(any_vec_ptr);
             let mut ptr = element_mut_ptr_at(any_vec_ptr, self.start);
-            while let Some(replace_element) = self.replace_with.next() {
+            while written < replace_len {
+                let replace_element = match self.replace_with.next() {
+                    Some(replace_element) => replace_element,
+                    None => break
+                };
                 assert_types_equal(type_id, replace_element.value_typeid());
                 replace_element.move_into::<
                     <ReplaceIter::Item as AnyValueSizeless>::Type
                 >(ptr, element_size);
                 ptr = ptr.add(element_size);
+                written += 1;
             }
+        }
+
+        // 3.1 fewer elements than promised - close the gap.
+        let mut new_len = new_len;
+        if written < replace_len {
+            unsafe{
+                move_elements_at(
+                    any_vec_ptr,
+                    replace_end,
+                    self.start + written,
+                    elements_left
+                );
+            }
+            new_len = self.start + written + elements_left;
         }
 
         // 4. restore len
